@@ -824,3 +824,145 @@ class C10(Base):
 
 
 MONITORS["C10"] = C10
+
+
+# -- C04 (thinning decisions in real runs) ---------------------------------------------------------------------------------
+class C04(Base):
+    """Every thinned event: the draw's upper limit is the bounding rate, the event is confirmed iff u < real rate, an
+    unconfirmed event changes no velocity, and (for the scaled 1/r bound) bound >= real > 0 with both recomputed by the
+    monitor from the event-time positions."""
+    prop = "C04"
+
+    def on_start(self, bus):
+        import random
+        import sys
+        self.L = lengths()
+        self.cur = None
+        self.warns, self.draws = [], []
+        mon = self
+        self._orig_uniform = random.uniform
+
+        def uniform(a, b):
+            r = mon._orig_uniform(a, b)
+            if mon.cur is not None:
+                mon.draws.append((a, b, r))
+            return r
+        random.uniform = uniform
+        self._patched = []
+        for name, mod in list(sys.modules.items()):
+            if name.startswith("jellyfysh.") and hasattr(mod, "bounding_potential_warning"):
+                orig = mod.bounding_potential_warning
+
+                def warn(hname, bound, real, _orig=orig):
+                    if mon.cur is not None:
+                        mon.warns.append((bound, real))
+                    return _orig(hname, bound, real)
+                mod.bounding_potential_warning = warn
+                self._patched.append((mod, orig))
+        self.charge_name = {}
+        from jellyfysh.base.factory import get_alias
+        for h in bus.handlers:
+            sec = get_alias(type(h).__name__)
+            if bus.cfg.has_section(sec):
+                self.charge_name[id(h)] = bus.cfg.get(sec, "charge", fallback=None)
+
+    def on_end(self, bus):
+        import random
+        random.uniform = self._orig_uniform
+        for mod, orig in self._patched:
+            mod.bounding_potential_warning = orig
+
+    def before_send_out_state(self, bus, h, args):
+        self.cur = h
+        self.warns, self.draws = [], []
+        self.pre = dict(bus.last_in_state.get(id(h)) or {})
+        for a in args:
+            if a is not None and hasattr(a, "value"):
+                self.pre.update(probe.snap_branches([a]))
+            elif isinstance(a, (list, tuple)):
+                self.pre.update(probe.snap_branches([x for x in a if x is not None and hasattr(x, "value")]))
+
+    def after_send_out_state(self, bus, h, args, out):
+        self.cur = None
+        if not self.warns:
+            if hasattr(h, "_bounding_potential") or "CellVeto" in real_class_name(h):
+                self.acc.count("thinned_events_without_positive_rate")
+            return
+        cname = real_class_name(h)
+        acc = self.acc
+        acc.count("thinned_events_seen")
+        by = acc.counters.setdefault("thinned_events_by_handler_class", {})
+        by[cname] = by.get(cname, 0) + 1
+        bound, real = self.warns[0]
+        post = probe.snap_branches(out) if out else {}
+        moved = [k for k, u in post.items() if k in self.pre and u[1] != self.pre[k][1]]
+        confirmed = bool(moved)
+        if not self.draws:
+            if real > 0:
+                self.viol(bus, "no-confirmation-draw", f"{cname}: real rate {real!r} > 0 but no uniform draw was made")
+            return
+        a, b, u = self.draws[0]
+        if a != 0 or b != bound:
+            self.viol(bus, "confirmation-limit-differs-from-bound", f"{cname}: draw uniform({a!r}, {b!r}) but the bounding rate "
+                                                                    f"is {bound!r}")
+            return
+        want = u < real if u != real else confirmed
+        if confirmed != want:
+            self.viol(bus, "acceptance-rule", f"{cname}: u = {u!r}, real rate {real!r}, bound {bound!r}: the event was "
+                                              f"{'confirmed' if confirmed else 'rejected'}", {"moved": [list(k) for k in moved]})
+            return
+        acc.count("confirmed_events" if confirmed else "rejected_events")
+        if not confirmed:
+            acc.count("rejected_events_velocities_checked")
+        # independent recomputation of both rates from the event-time positions (handlers with a real bounding potential)
+        pot = getattr(h, "_potential", None)
+        bpot = getattr(h, "_bounding_potential", None)
+        if pot is None or bpot is None or real_class_name(bpot) != "InversePowerCoulombBoundingPotential":
+            acc.count("thinned_events_with_estimator_bound")
+            if real > bound:
+                acc.count("estimator_bound_exceeded")      # a statistic: these bounds are not claimed to be true bounds
+            return
+        if real > bound * (1 + 1e-12) or (real > 0 and not bound > 0):
+            self.viol(bus, "bound-below-real-rate", f"{cname}: real rate {real!r} exceeds the scaled 1/r bound {bound!r}")
+            return
+        ch = self.charge_name.get(id(h))
+        leaves = {k: v for k, v in post.items() if not any(len(o) > len(k) and o[:len(k)] == k for o in post)}
+        actives = [k for k, v in self.pre.items() if k in leaves and v[1] is not None]
+        if len(actives) != 1:
+            acc.count("recomputation_skipped")
+            return
+        act = actives[0]
+        vel = list(self.pre[act][1])
+        if sum(1 for c in vel if c != 0.0) != 1:
+            acc.count("recomputation_skipped")
+            return
+        root_active = len([k for k in self.pre if len(k) == len(act) and self.pre[k][1] is not None]) > 1
+        if root_active:
+            acc.count("recomputation_skipped_root_mode")
+            return
+        targets = [k for k in leaves if k[0] != act[0]]
+
+        def q(k):
+            return dict(post[k][3] or ()).get(ch, 1.0) if ch else 1.0
+        rsum, bsum = 0.0, 0.0
+        for t in targets:
+            sep = []
+            for d in range(len(self.L)):
+                s = math.fmod(post[t][0][d] - post[act][0][d], self.L[d])
+                if s >= self.L[d] / 2:
+                    s -= self.L[d]
+                elif s < -self.L[d] / 2:
+                    s += self.L[d]
+                sep.append(s)
+            rsum += pot.derivative(list(vel), list(sep), q(act), q(t))
+            bsum += max(0.0, bpot.derivative(list(vel), list(sep), q(act), q(t)))
+        rsum = max(0.0, rsum)
+        acc.count("rates_recomputed")
+        tol = 1e-9 * (abs(bsum) + abs(rsum) + 1e-300)
+        if abs(bsum - bound) > tol or abs(rsum - max(0.0, real)) > tol:
+            self.viol(bus, "rates-differ-from-recomputation",
+                      f"{cname}: handler used bound {bound!r} / real {real!r}; recomputed at the event positions: sum of "
+                      f"positive pair bounds {bsum!r} / max(0, sum of pair rates) {rsum!r}")
+
+
+MONITORS["C04"] = C04
